@@ -115,7 +115,7 @@ Candidate(ctx, f, deg, s, c, j) ==
 \* The loop "for _ in 0..MaxTries", evaluated in blocks of Block candidates (the first candidate that is not
 \* rejected decides; candidates after it are not looked at by the machine).  Blocks keep TLC's recursion
 \* shallow: 1000 nested evaluations made the trace validation of a failing draw 10x slower.
-Block == 25
+Block == 8
 MinOf(S) == CHOOSE x \in S : \A y \in S : x <= y
 RECURSIVE DrawFrom(_, _, _, _, _, _)
 DrawFrom(ctx, f, deg, s, c, lo) ==
